@@ -384,6 +384,10 @@ def make_bundle(cfg, col):
     return bd
 
 
+def DIVERGENCE_ENTRY(item):
+    return (("MultiTaskReplayBuffer(" + item["cls"] + ")") if item.get("tasks") else str(item.get("cls")))
+
+
 def mixshape_item(item, col):
     """The first addition fixes the storage shape; later additions may hand the same quantity in any shape that assigns into
     one slot (a float for a (1,) reward, a (2,) observation for a (1, 2) one).  Every stored transition must stay intact."""
